@@ -274,7 +274,7 @@ def hijri_tlc_states(h0, h1, n0):
                     % (h0, h1 - h0, n0))
         dump = os.path.join(tmp, "states")
         r = subprocess.run(["tlc", "-workers", "1", "-noGenerateSpecTE", "-deadlock", "-metadir",
-                            os.path.join(tmp, "meta"), "-dump", dump, "Hijri"], cwd=tmp, capture_output=True,
+                            os.path.join(tmp, "meta"), "-dump", dump, "Hijri"], cwd=tmp, env=dict(os.environ, JAVA_TOOL_OPTIONS="-Djava.io.tmpdir=" + tmp), capture_output=True,
                            text=True, timeout=1200)
         if "Model checking completed. No error has been found" not in r.stdout:
             raise RuntimeError("TLC failed:\n" + r.stdout[-2000:] + r.stderr[-500:])
@@ -336,7 +336,7 @@ def easter_tlc_states(y0, y1):
                     % (max(y0, 0), max(-y0, 0), y1 - y0))
         dump = os.path.join(tmp, "states")
         r = subprocess.run(["tlc", "-workers", "1", "-noGenerateSpecTE", "-deadlock", "-metadir",
-                            os.path.join(tmp, "meta"), "-dump", dump, "Easter"], cwd=tmp, capture_output=True,
+                            os.path.join(tmp, "meta"), "-dump", dump, "Easter"], cwd=tmp, env=dict(os.environ, JAVA_TOOL_OPTIONS="-Djava.io.tmpdir=" + tmp), capture_output=True,
                            text=True, timeout=1200)
         if "Model checking completed. No error has been found" not in r.stdout:
             raise RuntimeError("TLC failed:\n" + r.stdout[-2000:] + r.stderr[-500:])
@@ -389,7 +389,7 @@ def pesach_tlc_states(a0, a1):
             f.write("CONSTANTS\n A0 = %d\n A1 = %d\nSPECIFICATION Spec\nINVARIANT TypeOK\n" % (a0, a1))
         dump = os.path.join(tmp, "states")
         r = subprocess.run(["tlc", "-workers", "1", "-noGenerateSpecTE", "-deadlock", "-metadir",
-                            os.path.join(tmp, "meta"), "-dump", dump, "Pesach"], cwd=tmp, capture_output=True,
+                            os.path.join(tmp, "meta"), "-dump", dump, "Pesach"], cwd=tmp, env=dict(os.environ, JAVA_TOOL_OPTIONS="-Djava.io.tmpdir=" + tmp), capture_output=True,
                            text=True, timeout=1200)
         if "Model checking completed. No error has been found" not in r.stdout:
             raise RuntimeError("TLC failed:\n" + r.stdout[-2000:] + r.stderr[-500:])
